@@ -87,16 +87,48 @@ static void run_delayseq(Ctx& ctx, bool T) {
     }
 }
 
+// 100 000-sample arrays: shifts around 65 536 and the array length
+static void run_delayseq_big(Ctx& ctx, bool T) {
+    (void)T;
+    const int N = 100000;
+    for (int d : {0, 1, -1, 4096, 65535, 65536, -65536, -65537, 99999, -99999, 100000, 100001}) {
+        if (ctx.take("delayseq.big", P().kv("N", N).kv("d", d).kv("type", "real"))) {
+            GUARD_BEGIN
+            arr_real x(N);
+            for (int i = 0; i < N; ++i) x[i] = i + 1;
+            ctx.nontrivial();
+            if (!bitsame(delayseq(x, d), shifted(x, d))) ctx.fail("delayseq", "differs from x shifted by d with zero fill", "bit-exact shift", P().kv("kind", "value"));
+            GUARD_END("delayseq")
+        }
+#ifdef VERIF_DELAYSEQ_CMPLX
+        if (ctx.take("delayseq.big", P().kv("N", N).kv("d", d).kv("type", "cmplx"))) {
+            GUARD_BEGIN
+            arr_cmplx x(N);
+            for (int i = 0; i < N; ++i) x[i] = cmplx_t{(double)(i + 1), -(double)(i + 1) - 0.5};
+            ctx.nontrivial();
+            if (!bitsame(delayseq(x, d), shifted(x, d))) ctx.fail("delayseq", "differs from x shifted by d with zero fill", "bit-exact shift", P().kv("kind", "value"));
+            GUARD_END("delayseq")
+        }
+#endif
+    }
+}
+
 // ---------------------------------------------------------------------------------------------- finddelay / gccphat
 struct LenSpec {
     int len;
-    bool all;
+    bool all;       // every shift in [-len/4, len/4] (else 9 boundary shifts)
+    int nletters;   // white letters 0 .. nletters-1
+    int nnoise;     // noise levels: 3 = {clean, -40 dB, -30 dB}, 2 = {clean, -30 dB}
+    int nfs;        // gccphat sampling rates: 3 = {1, 8000, 48000}, 1 = {48000}
+    bool big;       // 70 000 / 80 000 samples: shifts {+-1, +-9999, +-len/4}
 };
 
 static std::vector<int> shifts_for(const LenSpec& L) {
     std::vector<int> ds;
     const int q = L.len / 4;
-    if (L.all) {
+    if (L.big) {
+        ds = {-q, -9999, -1, 1, 9999, q};
+    } else if (L.all) {
         for (int d = -q; d <= q; ++d) ds.push_back(d);
     } else {
         for (int d : {0, 1, L.len / 8, q - 1, q}) {
@@ -111,15 +143,21 @@ static std::vector<int> shifts_for(const LenSpec& L) {
 static void run_delay_estimators(Ctx& ctx, bool T) {
     std::vector<LenSpec> lens;
     if (T) {
-        for (int l = 128; l <= 512; ++l) lens.push_back({l, true});
-        for (int l : {1000, 1001, 2048, 5000}) lens.push_back({l, true});
+        for (int l = 128; l <= 512; ++l) lens.push_back({l, true, 3, 3, 3, false});
+        for (int l = 513; l <= 1100; ++l) lens.push_back({l, true, 3, 3, 3, false});   // covers 1000, 1001, 1023, 1024, 1025
+        for (int l : {2047, 2048, 2049, 4095, 4096, 5000, 8191, 8192}) lens.push_back({l, true, 1, 2, 3, false});
     } else {
-        for (int l : {128, 129, 200, 256, 500}) lens.push_back({l, true});
-        for (int l : {1000, 5000}) lens.push_back({l, false});
+        for (int l : {128, 129, 200, 256, 500}) lens.push_back({l, true, 3, 3, 3, false});
+        for (int l : {1000, 5000}) lens.push_back({l, false, 3, 3, 3, false});
     }
-    const int noises[] = {0, 40, 30};
-    const int fss[] = {1, 8000, 48000};
+    // big signals (FFT length 131072, indices beyond 65536): 70 000 samples with shifts up to +-17 500 = len/4 and 80 000
+    // samples with shifts up to +-20 000 = len/4
+    for (int l : {70000, 80000}) lens.push_back({l, false, 1, 2, 1, true});
+    const int noises3[] = {0, 40, 30}, noises2[] = {0, 30};
+    const int fss3[] = {1, 8000, 48000}, fss1[] = {48000};
     for (const LenSpec& L : lens) {
+        const std::vector<int> noises(L.nnoise == 3 ? noises3 : noises2, (L.nnoise == 3 ? noises3 : noises2) + L.nnoise);
+        const std::vector<int> fss(L.nfs == 3 ? fss3 : fss1, (L.nfs == 3 ? fss3 : fss1) + L.nfs);
         const int len = L.len;
         // letters built lazily, once per length
         std::vector<arr_real> xr;
@@ -140,7 +178,7 @@ static void run_delay_estimators(Ctx& ctx, bool T) {
             }
         };
         for (int d : shifts_for(L)) {
-            for (int t = 0; t < 3; ++t) {
+            for (int t = 0; t < L.nletters; ++t) {
                 for (int nz : noises) {
                     const double g = noise_gain(nz);
                     if (ctx.take("finddelay.real", P().kv("len", len).kv("d", d).kv("letter", t).kv("noise_db", nz))) {
@@ -154,6 +192,12 @@ static void run_delay_estimators(Ctx& ctx, bool T) {
                         for (int i = 0; i < len; ++i) y[i] += g * nr[i];
                         const int got = finddelay(xr[t], y);
                         if (d != 0) ctx.nontrivial();
+                        if (L.big) ctx.note("finddelay on 70000 / 80000-sample signals");
+                        {
+                            int p2 = 1;
+                            while (p2 < len) p2 <<= 1;
+                            if (d > p2 - len) ctx.note("finddelay positive shift larger than nextpow2(len) - len");
+                        }
                         ctx.note(d < 0 ? "finddelay negative shift (lag unwrap)" : (d > 0 ? "finddelay positive shift" : "finddelay zero shift"));
                         if (got != d) ctx.fail("finddelay", fmt("%d", got), fmt("%d", d), P().kv("kind", "value").kv("got", got));
                         GUARD_END("finddelay")
@@ -217,6 +261,111 @@ static void run_delay_estimators(Ctx& ctx, bool T) {
         }
     }
 }
+
+// ---------------------------------------------------------------------------------------------- shifts beyond len/4 (thorough)
+// The statement covers |d| <= len/4.  Larger shifts (up to len/2 - 1) are checked only where the answer is forced for ANY
+// estimator that returns the lag of the largest cross-correlation value: the harness computes the linear cross-correlation
+// of x and the shifted copy and requires the value at lag d to exceed 4x the magnitude at every other lag (so that no
+// circular folding of two lags can reach it).  Pairs without that dominance are skipped and counted.
+template<class E>
+static bool lag_dominant(const base_array<E>& x, const base_array<E>& y, int d) {
+    const int n = x.size();
+    auto corr = [&](int lag) {   // sum_i y[i] * conj(x[i - lag])
+        double re = 0, im = 0;
+        for (int i = std::max(0, lag); i < std::min(n, n + lag); ++i) {
+            if constexpr (std::is_same_v<E, cmplx_t>) {
+                re += y[i].re * x[i - lag].re + y[i].im * x[i - lag].im;
+                im += y[i].im * x[i - lag].re - y[i].re * x[i - lag].im;
+            } else {
+                re += y[i] * x[i - lag];
+            }
+        }
+        return std::sqrt(re * re + im * im);
+    };
+    const double peak = corr(d);
+    for (int lag = -(n - 1); lag <= n - 1; ++lag)
+        if (lag != d && 4 * corr(lag) >= peak) return false;
+    return true;
+}
+
+static void run_beyond(Ctx& ctx, bool T) {
+    if (!T) return;
+    for (int len : {128, 255, 256, 257, 511, 512, 513, 1000, 1023, 1024, 2047, 2048}) {
+        arr_real xr;
+        arr_cmplx xc;
+        auto prep = [&]() {
+            if (xr.size() == len) return;
+            xr = white_real(len, 0);
+            xc = white_cmplx(len, 0);
+        };
+        for (int a = len / 4 + 1; a <= len / 2 - 1; ++a) {
+            for (int d : {a, -a}) {
+                for (int cplx = 0; cplx < 2; ++cplx) {
+                    if (!ctx.take("finddelay.beyond", P().kv("len", len).kv("d", d).kv("type", cplx ? "cmplx" : "real"))) continue;
+                    GUARD_BEGIN
+                    prep();
+                    int got = 0;
+                    bool dom = false;
+                    if (cplx) {
+                        arr_cmplx y = shifted(xc, d);
+                        dom = lag_dominant(xc, y, d);
+                        if (dom) got = finddelay(xc, y);
+                    } else {
+                        arr_real y = shifted(xr, d);
+                        dom = lag_dominant(xr, y, d);
+                        if (dom) got = finddelay(xr, y);
+                    }
+                    if (!dom) {
+                        ctx.note("finddelay.beyond: correlation peak not dominant, skipped");
+                        continue;
+                    }
+                    ctx.nontrivial();
+                    ctx.note("finddelay.beyond: checked (len/4 < |d| < len/2, dominant correlation peak)");
+                    if (got != d) ctx.fail("finddelay", fmt("%d", got), fmt("%d", d), P().kv("kind", "value").kv("got", got));
+                    GUARD_END("finddelay")
+                }
+            }
+        }
+    }
+}
+
+#ifdef VERIF_GCCPHAT_FRAC
+// ---------------------------------------------------------------------------------------------- gccphat, fractional delays
+// NOT part of the registered check (the statement quantifies over integer shifts): band-limited circular delay by a
+// fractional number of samples, |tau*fs - delta| <= 0.5.  On the pinned tree this FAILS (the sub-sample refinement of
+// gccphat moves away from the true delay: delta = 0.375 -> tau = -0.52); enable with -DVERIF_GCCPHAT_FRAC to reproduce.
+static void run_gccphat_frac(Ctx& ctx, bool T) {
+    for (int N : {255, 256, 257, 500}) {
+        if (!T && N > 256) continue;
+        arr_real x = white_real(N, 0);
+        std::vector<cld> X;
+        for (int q = -(N / 4) * 8; q <= (N / 4) * 8; ++q) {
+            if (!T && q % 2) continue;
+            const double delta = q / 8.0;
+            if (N % 2 == 0 && (q % 8 == 4 || q % 8 == -4)) continue;   // half-sample delay zeroes the Nyquist bin: 0/0 in the PHAT weighting
+            if (!ctx.take("gccphat.frac", P().kv("len", N).kv("delta", delta))) continue;
+            GUARD_BEGIN
+            if (X.empty()) X = dft_ref(to_cld(x));
+            std::vector<cld> Xs(N);
+            for (int k = 0; k < N; ++k) {
+                const int ks = (k <= N / 2) ? k : k - N;
+                cld ph = cis(-2 * PI_L * (ld)ks * (ld)delta / N);
+                if (N % 2 == 0 && k == N / 2) ph = cld(cosl(PI_L * (ld)delta), 0);
+                Xs[k] = X[k] * ph;
+            }
+            std::vector<cld> yy = dft_ref(Xs, +1);
+            arr_real y(N);
+            for (int m = 0; m < N; ++m) y[m] = (double)(yy[m].real() / N);
+            auto r = gccphat(y, x, 1);
+            ctx.nontrivial();
+            const double dev = std::fabs(r.tau - delta);
+            if (!(dev <= 0.5)) ctx.fail("gccphat", fmt("tau=%.6g", r.tau), fmt("within 0.5 of the delay %.3f", delta), P().kv("kind", "value"));
+            else ctx.worst("gccphat.frac |tau - delta| / 0.5", dev / 0.5);
+            GUARD_END("gccphat")
+        }
+    }
+}
+#endif
 
 // ---------------------------------------------------------------------------------------------- peakloc (real)
 static void run_peakloc(Ctx& ctx, bool T) {
@@ -350,8 +499,20 @@ static std::vector<int> det_offsets(int fl, int nh, bool all) {
 
 static void run_detector(Ctx& ctx, bool T) {
     std::vector<Preamble> pre;
-    for (int N : {17, 31, 63, 64, 127, 139, 256, 512})
-        for (int r : {1, 5}) pre.push_back({fmt("zc%d_r%d", N, r), zadoff_chu(r, N)});
+    std::vector<int> zcl = {17, 31, 63, 64, 127, 139, 256, 512};
+    if (T) zcl = {16, 17, 23, 31, 32, 33, 47, 63, 64, 100, 127, 128, 139, 199, 255, 256, 300, 511, 512};   // frame lengths 17 .. 725
+    for (int N : zcl) {
+        auto gcd = [](int a, int b) {
+            while (b) {
+                int t = a % b;
+                a = b;
+                b = t;
+            }
+            return a;
+        };
+        const int r2 = gcd(5, N) == 1 ? 5 : (gcd(7, N) == 1 ? 7 : 11);   // second root coprime with N
+        for (int r : {1, r2}) pre.push_back({fmt("zc%d_r%d", N, r), zadoff_chu(r, N)});
+    }
     for (int m : {5, 6, 7, 8, 9}) {
         auto a = mseq_bits(m);
         if (!mseq_ok(a)) {
@@ -363,10 +524,10 @@ static void run_detector(Ctx& ctx, bool T) {
         pre.push_back({fmt("mseq%d", (int)a.size()), h});
     }
     const double amps[] = {1e-3, 1.0, 1e3};
-    const double thrs[] = {0.3, 0.5, 0.7, 0.9};
+    const std::vector<double> thrs = T ? std::vector<double>{0.3, 0.4, 0.5, 0.6, 0.7, 0.8, 0.9, 0.95} : std::vector<double>{0.3, 0.5, 0.7, 0.9};
     const int NFR = 4;
     for (const Preamble& pr : pre) {
-        if (!ctx.wants("detector.present") && !ctx.wants("detector.absent") && !ctx.wants("detector.reset") && !ctx.wants("detector.reject")) break;
+        if (!ctx.wants("detector.present") && !ctx.wants("detector.absent") && !ctx.wants("detector.reset") && !ctx.wants("detector.reject") && !ctx.wants("detector.big")) break;
         const int nh = pr.h.size();
         int fl = 0;
         double rms_h = 0;
@@ -391,10 +552,11 @@ static void run_detector(Ctx& ctx, bool T) {
         std::vector<int> endframes = T ? std::vector<int>{1, 2} : std::vector<int>{1};
         const std::vector<int> offs = det_offsets(fl, nh, T || nh <= 64);
 
-        auto make_stream = [&](int embed, double A, int start /* <0: no preamble */) {
-            arr_cmplx s(N);
+        auto make_stream = [&](int embed, double A, int start /* <0: no preamble */, int NS = -1) {
+            if (NS < 0) NS = N;
+            arr_cmplx s(NS);
             const double gf = embed ? 0.01 * A * (double)rms_true / std::sqrt(2.0) : 0.0;   // floor 40 dB below the preamble power
-            for (int k = 0; k < N; ++k) {
+            for (int k = 0; k < NS; ++k) {
                 double re = embed ? gf * lcg_gauss(160, (uint64_t)k) : 0.0;
                 double im = embed ? gf * lcg_gauss(161, (uint64_t)k) : 0.0;
                 if (start >= 0 && k >= start && k < start + nh) {
@@ -413,19 +575,20 @@ static void run_detector(Ctx& ctx, bool T) {
         auto run_one = [&](const arr_cmplx& s, const DetRef& R, double thr, int fpc, int e, const char* site, const History& history = History()) {
             // decide whether the documented statistic gives an unambiguous expectation
             bool near = false, other = false;
-            for (int i = 0; i < N; ++i) {
+            const int NS = s.size(), nfr = NS / fl;
+            for (int i = 0; i < NS; ++i) {
                 const ld v = R.res[i];
                 if (fabsl(v - (ld)thr) <= 1e-6L) near = true;
                 if (i != e && v > (ld)thr) other = true;
             }
             if (e >= 0 && !(R.res[e] > (ld)thr)) other = true;   // peak itself below the threshold
             if (near || other) {
-                ctx.note(fmt("detector config excluded thr=%.1f: %s", thr,
+                ctx.note(fmt("detector config excluded thr=%.2f: %s", thr,
                              near ? "reference within 1e-6 of threshold"
                                   : (e >= 0 ? "reference crosses threshold away from the preamble end" : "reference crosses threshold without preamble")));
                 return;
             }
-            ctx.note(fmt("detector config checked thr=%.1f (%s%s)", thr, e >= 0 ? "preamble present" : "no preamble", history ? ", with history" : ""));
+            ctx.note(fmt("detector config checked thr=%.2f (%s%s)", thr, e >= 0 ? "preamble present" : "no preamble", history ? ", with history" : ""));
             PreambleDetector det(pr.h, thr);
             if (det.frame_len() != fl) {
                 ctx.fail(site, fmt("frame_len()=%d", det.frame_len()), fmt("%d as for the probe object", fl), P().kv("kind", "setup"));
@@ -433,7 +596,7 @@ static void run_detector(Ctx& ctx, bool T) {
             }
             const int blk = fpc * fl;
             const int ce = e >= 0 ? e / blk : -1;
-            for (int c = 0; c < NFR / fpc; ++c) {
+            for (int c = 0; c < nfr / fpc; ++c) {
                 arr_cmplx frame(blk);
                 for (int i = 0; i < blk; ++i) frame[i] = s[c * blk + i];
                 if (history) history(det, fpc, c);
@@ -495,6 +658,7 @@ static void run_detector(Ctx& ctx, bool T) {
                         ctx.note(start / fl != e / fl ? "detector preamble straddles a frame boundary" : "detector preamble inside one frame");
                         if (off == 0) ctx.note("detector preamble ends on first sample of a frame");
                         if (off == fl - 1) ctx.note("detector preamble ends on last sample of a frame");
+                        if (start % fl == 0) ctx.note("detector preamble starts on first sample of a frame");
                         for (double thr : thrs)
                             for (int fpc : {1, 2}) run_one(s, R, thr, fpc, e, "PreambleDetector.process");
                         GUARD_END("PreambleDetector.process")
@@ -631,6 +795,28 @@ static void run_detector(Ctx& ctx, bool T) {
                 }
             }
         }
+        // ---- long stream: about 140 000 samples (an even number of frames), the preamble placed at the 65 536 boundary:
+        // ending on sample 65 535, starting on sample 65 536, straddling it; one and two frames per call
+        if (nh == 139 || nh == 512) {
+            int nfrL = (140000 + fl - 1) / fl;
+            nfrL += nfrL % 2;
+            const int NL = nfrL * fl;
+            const int ends[3] = {65535, 65536 + nh - 1, 65536 + nh / 2};
+            for (int pi = 0; pi < 3; ++pi) {
+                for (int embed = 0; embed < 2; ++embed) {
+                    if (!ctx.take("detector.big", P().kv("preamble", pr.name).kv("samples", NL).kv("end", ends[pi]).kv("floor", embed))) continue;
+                    GUARD_BEGIN
+                    const int e = ends[pi];
+                    arr_cmplx s = make_stream(embed, 1.0, e - nh + 1, NL);
+                    DetRef R = det_reference(pr.h, s, rms_h);
+                    ctx.nontrivial();
+                    ctx.note("detector long stream, preamble at the 65536 boundary");
+                    for (double thr : {0.5, 0.9})
+                        for (int fpc : {1, 2}) run_one(s, R, thr, fpc, e, "PreambleDetector.process");
+                    GUARD_END("PreambleDetector.process")
+                }
+            }
+        }
         for (int embed = 0; embed < 2; ++embed) {
             for (double A : amps) {
                 if (!ctx.take("detector.absent", P().kv("preamble", pr.name).kv("floor", embed).kv("amp", A))) continue;
@@ -656,7 +842,12 @@ int main(int argc, char** argv) {
     ctx.note("build: delayseq<cmplx_t> not instantiated (compile probe failed or not run)");
 #endif
     run_delayseq(ctx, T);
+    run_delayseq_big(ctx, T);
     run_delay_estimators(ctx, T);
+    run_beyond(ctx, T);
+#ifdef VERIF_GCCPHAT_FRAC
+    run_gccphat_frac(ctx, T);
+#endif
     run_peakloc(ctx, T);
     run_detector(ctx, T);
     return ctx.finish();
